@@ -51,6 +51,9 @@ func genC18(rt *rapid.T) C18Scenario {
 			c := genCfg(rt, fmt.Sprintf("p%d.cfg", i))
 			p.Cfg = &c
 		}
+		if s.Cfg.Cluster != "" {
+			p.Node = rapid.IntRange(0, 1).Draw(rt, fmt.Sprintf("p%d.node", i))
+		}
 		s.Procs = append(s.Procs, p)
 	}
 	return s
